@@ -617,3 +617,8 @@ func (s *ErrSigningFailure) Error() string {
 func (s *ErrSigningFailure) Unwarp() error {
 	return s.Err
 }
+
+// Unwrap makes the underlying error reachable through errors.Is and errors.As.
+func (s *ErrSigningFailure) Unwrap() error {
+	return s.Err
+}
